@@ -1,10 +1,9 @@
-\* all 2-run histories in canonical form with something at stake: 2 points / 2 modules, no rpkiNotify, first run plain,
-\* <= 2 environment steps per gap
+\* as Gen_Cleanup.cfg with rpkiNotify on/off (RRDP disabled: rsync transport, stored under stored/rrdp)
 SPECIFICATION GSpec
 CONSTANTS
   NPoints = 2
   Modules = {"m1", "m2"}
-  Transports = {FALSE}
+  Transports = {FALSE, TRUE}
   Rrdp = FALSE
   MaxVer = 3
   MaxRuns = 2
